@@ -407,6 +407,16 @@ fn main() {
             match (sonic_rs::to_string(&one), serde_json::to_string(&one)) { (Ok(a), Ok(b)) if a != b => report("C05", format!("to_string of a map with the char key {:?} gives {:?}, reference {:?}", c, a, b)), (Err(e), Ok(_)) => report("C05", format!("to_string of a map with the char key {:?} fails: {e}", c)), _ => {} }
         }
         match (sonic_rs::to_string_pretty(&cm), serde_json::to_string_pretty(&cm)) { (Ok(a), Ok(b)) if a != b => report("C05", format!("to_string_pretty of a char-keyed map gives {:?}, reference {:?}", a, b)), _ => {} }
+        #[derive(serde::Serialize, PartialEq, Eq, PartialOrd, Ord)] struct IdKey(u32);
+        #[derive(serde::Serialize, PartialEq, Eq, PartialOrd, Ord)] struct FlagKey(bool);
+        #[derive(serde::Serialize, PartialEq, Eq, PartialOrd, Ord)] struct NameKey(String);
+        let mut nk: BTreeMap<IdKey, &str> = BTreeMap::new(); nk.insert(IdKey(7), "seven"); nk.insert(IdKey(42), "x");
+        match (sonic_rs::to_string(&nk), serde_json::to_string(&nk)) { (Ok(a), Ok(b)) if a != b => report("C05", format!("to_string of a map keyed by a newtype over u32 gives {:?}, reference {:?}", a, b)), (Err(e), Ok(_)) => report("C05", format!("to_string of a map keyed by a newtype over u32 fails: {e}")), _ => {} }
+        match (sonic_rs::to_string_pretty(&nk), serde_json::to_string_pretty(&nk)) { (Ok(a), Ok(b)) if a != b => report("C05", format!("to_string_pretty of a map keyed by a newtype over u32 gives {:?}, reference {:?}", a, b)), _ => {} }
+        let mut fk: BTreeMap<FlagKey, u8> = BTreeMap::new(); fk.insert(FlagKey(true), 1);
+        match (sonic_rs::to_string(&fk), serde_json::to_string(&fk)) { (Ok(a), Ok(b)) if a != b => report("C05", format!("to_string of a map keyed by a newtype over bool gives {:?}, reference {:?}", a, b)), _ => {} }
+        let mut sk: BTreeMap<NameKey, u8> = BTreeMap::new(); sk.insert(NameKey("n\"\n".into()), 1);
+        match (sonic_rs::to_string(&sk), serde_json::to_string(&sk)) { (Ok(a), Ok(b)) if a != b => report("C05", format!("to_string of a map keyed by a newtype over String gives {:?}, reference {:?}", a, b)), _ => {} }
         let mut bm: BTreeMap<bool, i64> = BTreeMap::new(); bm.insert(true, -1); bm.insert(false, i64::MIN);
         match (sonic_rs::to_string(&bm), serde_json::to_string(&bm)) { (Ok(a), Ok(b)) if a != b => report("C05", format!("to_string of a bool-keyed map gives {:?}, reference {:?}", a, b)), _ => {} }
         let mut im: BTreeMap<i64, u64> = BTreeMap::new(); im.insert(i64::MIN, u64::MAX); im.insert(0, 0); im.insert(7, 1);
@@ -528,6 +538,47 @@ fn main() {
                 Ok(Err((off, l, c))) => { if off > b.len() || (l, c) != line_col(b, off) { report("C20", format!("lossy Value parse of {} ({} bytes): error reports offset {} line {} column {}, line/column of that offset in the input: {:?}", show(b), b.len(), off, l, c, line_col(b, off.min(b.len())))); } }
                 Ok(Ok(_)) => {}
             }
+        }
+    }
+    // C07 (found F27): huge exponents against zero-padded / long literals — the exponent is added to the number of digits
+    // dropped from the significand; against std's str::parse::<f64>
+    if want("C07") {
+        let mut cases: Vec<String> = vec![];
+        for z in [0usize, 1, 18, 19, 20, 300, 999, 1000, 1001, 5000, 20000] {
+            cases.push(format!("0.{}1e{}", "0".repeat(z), z + 1));
+            cases.push(format!("0.{}123456789e{}", "0".repeat(z), z + 3));
+            cases.push(format!("1{}e-{}", "0".repeat(z), z));
+            cases.push(format!("-25{}.5e-{}", "0".repeat(z), z + 1));
+            cases.push(format!("1e{}", z)); cases.push(format!("1e-{}", z));
+            cases.push(format!("0.{}9e{}", "0".repeat(z), z + 309));
+        }
+        for t in ["1e99999999999999999999", "1e-99999999999999999999", "0e99999999999999999999", "1e2147483648", "1e-2147483648"] { cases.push(t.to_string()); }
+        for t in &cases {
+            let want_v: Option<u64> = t.parse::<f64>().ok().filter(|f| f.is_finite()).map(f64::to_bits);
+            match catch_unwind(AssertUnwindSafe(|| sonic_rs::from_str::<f64>(t).ok().map(f64::to_bits))) {
+                Err(_) => report("C07", format!("from_str::<f64> of a {}-byte literal {}… panics", t.len(), &t[..t.len().min(24)])),
+                Ok(g) => if g != want_v { report("C07", format!("from_str::<f64> of the {}-byte literal {}…{} gives {:?}, str::parse gives {:?}", t.len(), &t[..t.len().min(16)], &t[t.len().saturating_sub(10)..], g.map(f64::from_bits), want_v.map(f64::from_bits))) }
+            }
+        }
+    }
+    // C08 / C02: long number texts across the 32-byte blocks of the raw-number skipper — a RawNumber (bare, quoted, in a
+    // use_rawnumber Value) only ever holds a JSON number
+    if want("C08") || want("C02") {
+        let pid = if want("C08") { "C08" } else { "C02" };
+        let mut texts: Vec<String> = vec![];
+        for int in ["1", "12", "-12", "0", "123456789012345678901234567890123"] { for k in [0usize, 1, 27, 28, 29, 30, 31, 32, 33, 62, 63, 64, 65] { for tail in ["", ".5", "e5", ".5e5", "e", ".", "-", "e+", "E-3", ".e1", "5.5"] {
+            texts.push(format!("{int}.{}{tail}", "3".repeat(k)));
+            texts.push(format!("{int}{}{tail}", "7".repeat(k)));
+            texts.push(format!("{int}e{}{tail}", "1".repeat(k.min(3).max(1))));
+        } } }
+        for t in &texts {
+            let wf = number(t.as_bytes(), 0) == Some(t.len());
+            let r = catch_unwind(AssertUnwindSafe(|| sonic_rs::from_str::<sonic_rs::RawNumber>(t).map(|n| n.as_str().to_string())));
+            match r { Err(_) => report(pid, format!("from_str::<RawNumber>({:?}) panics", t)), Ok(Ok(raw)) => { if !wf || raw != *t { report(pid, format!("from_str::<RawNumber>({:?}) accepted and holds {:?}: not that JSON number", t, raw)); } } Ok(Err(_)) => { if wf { report(pid, format!("from_str::<RawNumber>({:?}) rejects a well-formed number", t)); } } }
+            let q = format!("\"{t}\"");
+            if let Ok(Ok(raw)) = catch_unwind(AssertUnwindSafe(|| sonic_rs::from_str::<sonic_rs::RawNumber>(&q).map(|n| n.as_str().to_string()))) { if !wf || raw != *t { report(pid, format!("from_str::<RawNumber>({:?}) accepted and holds {:?}", q, raw)); } }
+            let doc = format!("[{t}]");
+            if let Ok(Ok(v)) = catch_unwind(AssertUnwindSafe(|| sonic_rs::Deserializer::from_str(&doc).use_rawnumber().deserialize::<sonic_rs::Value>().map(|v| v.to_string()))) { if !wf { report(pid, format!("use_rawnumber Value of {:?} accepted: {}", doc, v)); } else if v != doc { report(pid, format!("use_rawnumber Value of {:?} serializes to {}", doc, v)); } }
         }
     }
     // C03 (lossy configuration): a stream of Values over input with invalid UTF-8 inside string literals — every
